@@ -37,6 +37,13 @@ func (m *Mux) HandleRPC(stream drpc.Stream, rpc string) (err error) {
 	case out != nil && !reflect.ValueOf(out).IsNil():
 		return stream.MsgSend(out, data.enc)
 	default:
-		return stream.CloseSend()
+		// ending the stream is left to whoever called HandleRPC: the server
+		// sends the half-close once it has ended the receive side, the http
+		// gateway finishes the response. sending the half-close from here as
+		// well meant that it was written while messages the receiver never
+		// read could still park the connection reader, and on a transport that
+		// does not buffer, that write and a client that is still sending then
+		// wait for each other forever (see drpcserver.handleRPC).
+		return nil
 	}
 }
